@@ -11,6 +11,21 @@ Definition bools (l : list N) : list bool := map (fun x => N.eqb x 1) l.
 (* O file status sidecar incache committed ncomp bytes bits gate res *)
 Definition O (f : option (list N)) (st sc : list N) (ic cm : N) (nc by_ : N) (bits : list N) (g r : N) : iobs :=
   mkiobs f (mkobs st sc [] (N.eqb ic 1) (N.eqb cm 1) nc by_ (bools bits) g r).
+(* the small fields of an observation packed into one numeral, 4 bits per digit, from the least
+   significant digit: gate, res, incache, committed, ncomp (2 digits), bytes (3 digits),
+   |status|, |sidecar|, |bits|, then one digit per piece index: status + 4*sidecar + 8*bit *)
+Definition dig (v : N) (k : N) : N := N.land (N.shiftr v (4 * k)%N) 15%N.
+Definition idxs (n : N) : list N := map N.of_nat (seq 0 (N.to_nat n)).
+Definition P' (f : option (list N)) (v : N) : iobs :=
+  let d := dig v in
+  O f (map (fun j => N.land (d (12 + j)%N) 3%N) (idxs (d 9%N)))
+      (map (fun j => N.land (N.shiftr (d (12 + j)%N) 2%N) 1%N) (idxs (d 10%N)))
+      (d 2%N) (d 3%N) (d 4 + 16 * d 5)%N (d 6 + 16 * d 7 + 256 * d 8)%N
+      (map (fun j => N.shiftr (d (12 + j)%N) 3%N) (idxs (d 11%N)))
+      (d 0%N) (d 1%N).
+Definition P (v : N) : iobs := P' None v.
+Definition Q (f : list N) (v : N) : iobs := P' (Some f) v.
+
 Definition F (pieces : list (option (list N))) (cache : option (list N)) (res : list N) : fin :=
   mkfin pieces cache res.
 
